@@ -1065,3 +1065,25 @@ ck(T) :- T =.. [F|As], maplist(explode, As, Ls), R =.. [F|Ls], copy_term(T, C1),
             for shape in ("f(S,A,B)", "f(A,S,B)", "f(A,B,S)", "f(B,A,S)", "g(A,S)", "g(B,B)"):
                 cases.append(("S = \"%s\", skip(%d, S, A), skip(%d, S, B), ck(%s)" % (s, n1, n2, shape), "same"))
     return run_cases(prog, cases, {"model": viol}, "C20", "string_copy", batch=True)
+
+
+# ---------------------------------------------------------------- C21 (interned atoms across table growth)
+def replay_atom_table_growth(viol):
+    """intern a long atom, then ~280 KiB of other long atoms (the table outgrows its first block), then
+    build the first text again by several paths: it must be the very same atom"""
+    prog = """
+:- use_module(library(lists)).
+:- use_module(library(between)).
+:- use_module(library(iso_ext)).
+show(X) :- write(X), nl.
+early_long_predicate_name(ok).
+filler(I) :- number_chars(I, Cs), append("filler_atom_with_a_rather_long_text_to_fill_the_table_", Cs, T), atom_chars(_, T).
+same(A, B) :- A == B, A = B, compare(=, A, B).
+grow :- forall(between(1, 4000, I), filler(I)).
+t1 :- E = early_long_atom_text, atom_codes(E, Cs), grow, atom_codes(E2, Cs), ( same(E, E2) -> show(same) ; show(different) ).
+t2 :- E = another_early_long_atom, atom_chars(E, Cs), grow, atom_chars(E2, Cs), atom_concat(another_early_, long_atom, E3),
+      ( same(E, E2), same(E, E3) -> show(same) ; show(different) ).
+t3 :- grow, atom_chars(P, "early_long_predicate_name"), G =.. [P, R], ( catch(G, _, fail), R == ok -> show(called) ; show(lost) ).
+"""
+    cases = [("t1", "same"), ("t2", "same"), ("t3", "called")]
+    return run_cases(prog, cases, {"model": viol}, "C21", "atom_table_growth")
